@@ -48,6 +48,7 @@ func init() {
 			runC26(c, c26Config{Rels: rels, IfaceRel: "sql", Iface: "Type", Method: "Compare", HelperRel: "sql/types", Helper: "CompareNulls",
 				ValueIface: "ValueType", ValueMethod: "CompareValue", ValueHelper: "CompareNullValues", NilPredRel: "sql", NilPred: "Value.IsNull",
 				Floors: [3]int{74, 8, 37}})
+			runC26X(c, c26XConfig{Rels: rels, Floors: [2]int{6, 8}})
 		},
 		Fixture: func(c *Ctx, fx *Prog) {
 			expectFixture(c, fx, "c26: unguarded Compare, wrong null return, wrong helper sign/flag, raw subtraction",
@@ -64,8 +65,17 @@ func init() {
 					runC26(fc, c26Config{Rels: []string{"testdata/c26/cmp"}, IfaceRel: "testdata/c26/cmp", Iface: "Type", Method: "Compare",
 						HelperRel: "testdata/c26/cmp", Helper: "CompareNulls"})
 				})
+			expectFixture(c, fx, "c26x: unguarded uint64->int64, int64->uint64 without the sign guard, float->uint64 with the 2^64 boundary, operands compared only as rounded / truncated images",
+				[]string{
+					"C26-X1:BadIntUint/int64(u64)/hi",
+					"C26-X1:BadIntUnsigned/uint64(i64)/lo",
+					"C26-X1:BadUintFloat/uint64(f64)/hi",
+					"C26-X2:BadRounded/operand i64",
+					"C26-X2:BadTruncated/operand f64",
+				},
+				func(fc *Ctx) { runC26X(fc, c26XConfig{Rels: []string{"testdata/c26/numcmp"}}) })
 		},
-		FixturePkgs: []string{"./testdata/c26/cmp"},
+		FixturePkgs: []string{"./testdata/c26/cmp", "./testdata/c26/numcmp"},
 	})
 }
 
